@@ -9,7 +9,11 @@ import gen, lib
 VOCAB = ["wire", "const", "register", "in", "x", "y_1", "pP", "Stat", "pc", "0", "1", "42", "0x1f", "0b101", "0x", "0b", "0b2", "9z",
          "340282366920938463463374607431768211456", "0b" + "1" * 129, "&&", "||", "==", "!=", ">=", ">", "<=", "<", "=", ">>", "<<",
          ",", ";", "+", "-", "&", "|", "^", "*", "/", "!", "(", ")", "{", "}", "[", "]", ":", "~", "..", ".", "#c\n", "//c\n", "/*c*/", "/*", "*/",
-         "/*/", "\n", "\r\n", "\r", " ", "\t", "é", "É", "❤", " ", "　", "$", "@", "\x00", "\\", "'", "\""]
+         "/*/", "\n", "\r\n", "\r", " ", "\t", "é", "É", "❤", " ", "　", "$", "@", "\x00", "\\", "'", "\"",
+         # non-ASCII characters of every Unicode class the lexer's predicates distinguish: numeric (superscript two,
+         # Arabic-Indic three, one half, Roman numeral eight, mathematical double-struck one), alphabetic beyond Latin-1 and
+         # beyond the BMP, zero-width space, byte-order mark; alone and glued to ASCII digits / literal prefixes
+         "²", "٣", "½", "Ⅷ", "𝟙", "x²", "3²", "٣٣", "0x٣", "0b²", "1٣", "á", "𝐱", "​", "﻿"]
 
 BASE_PROGRAMS = [
     "register pP { pc : 64 = 0; }\np_pc = P_pc + 1;\npc = P_pc;\nStat = [ P_pc == 3 : STAT_HLT; 1 : STAT_AOK; ];\n",
@@ -68,13 +72,15 @@ def check(report, tier, seed):
     lines = ["c%d front %s 1" % (i, lib.hexs(t)) for i, t in enumerate(texts)]
     res = collections.Counter()
     for profile in ("dev", "noovf"):
-        impl = lib.run_cases(lib.build_harness(profile), lines, timeout=900)
+        impl = lib.run_cases(lib.build_harness(profile), lines, timeout=60 if tier == "quick" else 600, restarts=1)
         for i, t in enumerate(texts):
             blk = impl.get("c%d" % i, ["MISSING"])
             rep = {"text": t[:2000], "profile": profile, "impl": [l[:300] for l in blk]}
             if any(l.startswith(("PANIC", "DIED", "NOT-RUN", "MISSING")) for l in blk):
                 msg = [bytes.fromhex(l[6:]).decode("utf-8", "replace") for l in blk if l.startswith("PANIC") and len(l) > 7]
                 import re
+                if any(l.startswith("HUNG") for l in blk):
+                    msg = ["no answer within the time limit (hang)"]
                 report.violation("input-panic:" + re.sub(r"[^A-Za-z]+", "-", (msg or ["died"])[0])[:50],
                                  "front end or diagnostic renderer panicked / hung on %r: %s" % (t[-60:], (msg or ["process died or timed out"])[0][:100]), rep)
                 continue
